@@ -334,7 +334,53 @@ def rule_divaccount(ctx, prop: str) -> RuleResult:
                         f"(C + D + N) / {D} is split around a remainder whose constant part is {kx} but the quotient is given the constant {k}: "
                         f"the constant is counted {'twice' if kx == 'C' else 'wrongly'} — e.g. (4*io + ii - 1) / 4 with ii in [1,5) becomes io - 1")
             )
-    res.floor = 3
+    # splitting the denominator:  x / d  ==  (x / a) / b  holds (floor division, a, b > 0) exactly when a * b == d.
+    # Wherever the helper divides by one factor first and returns a division of THAT result, the two divisors
+    # must be complementary factors of d (`v` and `d // v`); dividing twice by the same factor gives x / (b*b).
+    g = m.funcs.get("_DoNormalize.index_start.division_simplification_and_try_spliting_denominator")
+    if g is None:
+        raise AnalysisError("anchor vanished: _DoNormalize.index_start.division_simplification_and_try_spliting_denominator")
+    res.analysed.append(f"{S}:{g.qualname}")
+
+    def div_by(e_: ast.AST):
+        """`LoopIR.BinOp('/', NUM, <x>.update(val=V), ...)` -> (text of NUM, text of V)"""
+        if isinstance(e_, ast.Call) and dotted(e_.func) == "LoopIR.BinOp" and len(e_.args) >= 3 and isinstance(e_.args[0], ast.Constant) and e_.args[0].value == "/":
+            den = e_.args[2]
+            if isinstance(den, ast.Call) and isinstance(den.func, ast.Attribute) and den.func.attr == "update":
+                for kw in den.keywords:
+                    if kw.arg == "val":
+                        return ast.unparse(e_.args[1]), ast.unparse(kw.value)
+        return None
+
+    dvars = [ast.unparse(n.targets[0]) for n in g.body_nodes() if isinstance(n, ast.Assign) and len(n.targets) == 1 and ast.unparse(n.value).endswith(".rhs.val")]
+    n_split = 0
+    for loop in [n for n in g.body_nodes() if isinstance(n, ast.While)]:
+        stmts = [st for st in ast.walk(loop) if isinstance(st, (ast.Assign, ast.Return))]
+        stmts.sort(key=lambda st: (st.lineno, st.col_offset))
+        inner = None
+        for st in stmts:
+            if isinstance(st, ast.Assign) and len(st.targets) == 1 and isinstance(st.targets[0], ast.Name):
+                d_ = div_by(st.value)
+                if d_ is not None:
+                    inner = (st.targets[0].id, d_[1])
+            elif isinstance(st, ast.Return) and st.value is not None and inner is not None:
+                d_ = div_by(st.value)
+                if d_ is None or d_[0] != inner[0]:
+                    continue
+                n_split += 1
+                res.instances += 1
+                res.nontrivial += 1
+                A, B = inner[1], d_[1]
+                ok = any(B == f"{D_} // {A}" or A == f"{D_} // {B}" for D_ in dvars)
+                res.ob(ok)
+                res.sample(f"{g.qualname}:{st.lineno}: (x / {A}) / {B} with complementary factors of {dvars}: {ok}")
+                if not ok:
+                    res.add(Finding("DIVACCOUNT", S, st.lineno, g.qualname, f"split:{A}|{B}",
+                                    f"x / d is rewritten to (x / {A}) / {B}: the two divisors are not complementary factors of d ({A} * {B} != d) — "
+                                    f"(8*i + j) / 16 with j in [0, 8) becomes i / 8 instead of i / 2"))
+    if n_split < 2:
+        raise AnalysisError(f"DIVACCOUNT: expected the two denominator-splitting returns, found {n_split}")
+    res.floor = 5
     return res
 
 
